@@ -3,12 +3,14 @@ package props
 import (
 	"bytes"
 	"fmt"
+	kv "github.com/XiXi-2024/xixi-kv"
 	"os"
 	"path/filepath"
 	"sort"
 	"strconv"
 	"strings"
 	"sync"
+	"time"
 
 	"verif/harness/core"
 	"verif/harness/mon"
@@ -227,6 +229,53 @@ func (c06) Run(c core.Case, w *core.Worker) core.Result {
 			core.Safe(func() { merr = s.DB.Merge() })
 			hookWrites, hookAfterRotate = nil, nil
 		case "racing":
+			if cc.Var == "empty" || cc.Var == "all-deleted" || r.Chance(1, 4) {
+				// Merge is CALLED while this goroutine holds an open batch (which owns the
+				// database lock until Commit): whatever Merge looked at before it got the lock
+				// is stale by the time it runs. The batch's records reach the log before the
+				// rotation, so they belong to the merged set.
+				b := s.DB.NewBatch(kv.BatchOptions{})
+				done := make(chan struct{})
+				go func() {
+					defer close(done)
+					core.Safe(func() { merr = s.DB.Merge() })
+				}()
+				time.Sleep(time.Duration(r.Range(1, 4)) * time.Millisecond)
+				type pend struct {
+					k, v []byte
+					del  bool
+				}
+				var pends []pend
+				for j := r.Range(1, 8); j > 0; j-- {
+					k := g.Key()
+					if r.Chance(3, 4) {
+						v := core.FillValue(r.U64(), r.Range(0, 400))
+						if b.Put(k, v) == nil {
+							pends = append(pends, pend{k: k, v: v})
+							racedVals[string(k)+"\x00"+core.HashBytes(v)] = true
+						}
+					} else if b.Delete(k) == nil {
+						pends = append(pends, pend{k: k, del: true})
+					}
+				}
+				if err := b.Commit(); err == nil {
+					for _, pd := range pends {
+						if pd.del {
+							s.M.Delete(pd.k)
+						} else {
+							s.M.Put(pd.k, pd.v)
+						}
+						touched[string(pd.k)] = true
+					}
+				} else {
+					fail("batch", "Commit of the batch that was open while Merge was called failed: "+err.Error())
+				}
+				<-done
+				res.Add("merges_called_behind_an_open_batch", 1)
+				res.Add("writes_during_scan", int64(len(pends)))
+				res.Add("racing_merges", 1)
+				break
+			}
 			nw := r.Range(1, 4)
 			var wg sync.WaitGroup
 			stop := make(chan struct{})
